@@ -252,4 +252,93 @@ example : PMTPlainOk exPMTPlain := ⟨by decide, rfl, by decide, by decide⟩
 example : SyntaxHeaderOk { currentNextIndicator := true, tableIDExtension := 1, versionNumber := 31, sectionNumber := 0, lastSectionNumber := 255 } :=
   ⟨by decide, by decide, by decide, by decide⟩
 
+/-! ## PMT round trip with typed descriptors: `DescOk` discharged (C14 `desc_ok_typed`, helpers in `Proofs/DescRT/`) -/
+
+section TypedDescriptors
+open Astits.DescRT
+
+/-- a PMT whose descriptors — program level and per elementary stream — are well-formed typed descriptors
+(`C14.TypedWF`) or user-defined ones (`C14.DescWF`): no round-trip hypothesis is left, only field ranges -/
+structure PMTTypedOk (d : PMTData) : Prop where
+  pcrPID : d.pcrPID < 8192
+  descs : ∀ x ∈ d.programDescriptors, C14.DescWF x
+  streams : ∀ es ∈ d.elementaryStreams, es.streamType < 256 ∧ es.elementaryPID < 8192 ∧
+    (∀ x ∈ es.elementaryStreamDescriptors, C14.DescWF x) ∧ descriptorsSize es.elementaryStreamDescriptors < 4096
+  fits : 9 + pmtBodySize d < 4096
+
+theorem PMTTypedOk.ok {d : PMTData} (p : PMTTypedOk d) : PMTOk d :=
+  ⟨p.pcrPID, fun x hx => C14.desc_ok_wf x (p.descs x hx),
+    fun es hes =>
+      let ⟨h1, h2, h3, h4⟩ := p.streams es hes
+      ⟨h1, h2, fun x hx => C14.desc_ok_wf x (h3 x hx), h4⟩,
+    p.fits⟩
+
+/-- **PMT round trip, typed descriptors included**: `pmt_roundtrip` with the per-descriptor hypothesis `DescOk`
+discharged for every typed kind (AC-3, AVC video, component, content, data stream alignment, enhanced AC-3, extended
+event, extension, ISO 639 language, local time offset, maximum bitrate, network name, parental rating, private data
+indicator / specifier, registration, service, short event, stream identifier, subtitling, teletext, VBI data, VBI
+teletext, unknown tag) and for user-defined descriptors -/
+theorem pmt_roundtrip_typed (pf crc : Nat) (h : PSISectionHeader) (sh : PSISectionSyntaxHeader) (d : PMTData)
+    (hpf : pf < 256) (ht : h.tableID = 2) (hsl : h.sectionLength > 0) (hsh : SyntaxHeaderOk sh) (hd : PMTTypedOk d) :
+    ∃ bs, writePSIData { pointerField := (pf : Int), sections := [mkPMTSection crc h sh d] } = .ok bs ∧
+      parsePSIData ⟨bs, 0⟩ = .ok ({ pointerField := (pf : Int), sections := [
+        parsedSection (computeCRC32 (sectionPre (mkPMTSection crc h sh d))).toNat
+          { h with sectionLength := 9 + pmtBodySize d, tableType := "PMT" } sh
+          { pmt := some { d with programNumber := sh.tableIDExtension } }] }, ⟨bs, (bs.length : Int)⟩) :=
+  pmt_roundtrip pf crc h sh d hpf ht hsl hsh hd.ok
+
+/-- when the struct's `ProgramNumber` is the syntax header's `table_id_extension`, the PMT data itself comes back -/
+theorem pmt_roundtrip_typed_data (pf crc : Nat) (h : PSISectionHeader) (sh : PSISectionSyntaxHeader) (d : PMTData)
+    (hpf : pf < 256) (ht : h.tableID = 2) (hsl : h.sectionLength > 0) (hsh : SyntaxHeaderOk sh) (hd : PMTTypedOk d)
+    (hext : sh.tableIDExtension = d.programNumber) :
+    ∃ bs c, writePSIData { pointerField := (pf : Int), sections := [mkPMTSection crc h sh d] } = .ok bs ∧
+      parsePSIData ⟨bs, 0⟩ = .ok ({ pointerField := (pf : Int), sections := [
+        parsedSection c { h with sectionLength := 9 + pmtBodySize d, tableType := "PMT" } sh { pmt := some d }] },
+        ⟨bs, (bs.length : Int)⟩) := by
+  obtain ⟨bs, hw, hp⟩ := pmt_roundtrip_typed pf crc h sh d hpf ht hsl hsh hd
+  refine ⟨bs, (computeCRC32 (sectionPre (mkPMTSection crc h sh d))).toNat, hw, ?_⟩
+  rw [hp, hext]
+
+/-- a realistic PMT: a registration descriptor at program level; an H.264 stream with an AVC video and a stream
+identifier descriptor; an AC-3 stream with a language, an AC-3 and a user-defined descriptor; a DVB subtitle stream -/
+def exPMTTyped : PMTData :=
+  { pcrPID := 0x100, programNumber := 1
+    programDescriptors := [ofRegistration { formatIdentifier := 0x48444d56 }]
+    elementaryStreams := [
+      { elementaryPID := 0x100, streamType := 0x1b,
+        elementaryStreamDescriptors := [ofAVCVideo { profileIDC := 100, levelIDC := 40, constraintSet1Flag := true },
+          ofStreamIdentifier { componentTag := 1 }] },
+      { elementaryPID := 0x101, streamType := 0x06,
+        elementaryStreamDescriptors := [ofISO639 { language := [0x66, 0x72, 0x61], type := 0 },
+          ofAC3 { hasComponentType := true, componentType := 0x42 }, userDescriptor 0x90 [1, 2, 3]] },
+      { elementaryPID := 0x102, streamType := 0x06,
+        elementaryStreamDescriptors := [ofSubtitling { items := [{ language := [0x66, 0x72, 0x61], type := 0x10, compositionPageID := 1, ancillaryPageID := 1 }] }] }] }
+
+example : PMTTypedOk exPMTTyped := by
+  refine ⟨by decide, ?_, ?_, by decide⟩
+  · intro x hx
+    simp [exPMTTyped] at hx; subst hx
+    exact .typed _ (.registration _ ⟨by decide, by decide⟩)
+  · intro es hes
+    simp [exPMTTyped] at hes
+    rcases hes with rfl | rfl | rfl
+    · refine ⟨by decide, by decide, ?_, by decide⟩
+      intro x hx; simp at hx
+      rcases hx with rfl | rfl
+      · exact .typed _ (.avc_video _ ⟨by decide, by decide, by decide⟩)
+      · exact .typed _ (.stream_identifier _ ⟨by decide⟩)
+    · refine ⟨by decide, by decide, ?_, by decide⟩
+      intro x hx; simp at hx
+      rcases hx with rfl | rfl | rfl
+      · exact .typed _ (.iso639_language_and_audio_type _ ⟨by decide, by decide⟩)
+      · exact .typed _ (.ac3 _ ⟨by decide, by decide, by decide, by decide, by decide⟩)
+      · exact .user 0x90 [1, 2, 3] (by decide) (by decide)
+    · refine ⟨by decide, by decide, ?_, by decide⟩
+      intro x hx; simp at hx; subst hx
+      refine .typed _ (.subtitling _ ⟨?_, by decide, by decide⟩)
+      intro a ha; simp at ha; subst ha
+      exact ⟨by decide, by decide, by decide, by decide⟩
+
+end TypedDescriptors
+
 end Astits.C13
